@@ -422,11 +422,32 @@ fn round_trip(t: &T, h: &Handle, scripting: bool) -> String {
     }
     let want: Vec<T> = ch.iter().map(strip).collect();
     let got: Vec<T> = got.iter().map(strip).collect();
-    if want == got {
-        "ok".into()
-    } else {
-        "diff".into()
+    if want != got {
+        return "diff".into();
     }
+    // the same text re-parsed the way a consumer would feed it: default options, in pieces cut in front
+    // of every U+FEFF (a leading BOM is only ever dropped at the very start of the stream)
+    if text.contains('\u{feff}') && !text.starts_with('\u{feff}') {
+        let mut p = parse_fragment(RcDom::default(), parse_opts(scripting), name.clone(), vec![], scripting);
+        let mut start = 0;
+        for (i, c) in text.char_indices() {
+            if c == '\u{feff}' && i > start {
+                p.process(StrTendril::from_slice(&text[start..i]));
+                start = i;
+            }
+        }
+        p.process(StrTendril::from_slice(&text[start..]));
+        let dom2 = p.finish();
+        let doc2 = from_rcdom(&dom2.document);
+        let got2: Vec<T> = match doc2.children() {
+            [T::El(_, _, c)] => c.iter().map(strip).collect(),
+            _ => return "shape".into(),
+        };
+        if want != got2 {
+            return "diff-chunked".into();
+        }
+    }
+    "ok".into()
 }
 
 fn run_tree(fields: &[&str]) -> String {
